@@ -86,8 +86,10 @@ pub fn build_output(
     let mut overlap_checker = util::OverlapChecker::new();
 
     fill_banks(
+        report,
+        decls,
         defs,
-        &mut output);
+        &mut output)?;
 
     let mut iter = asm::ResolveIterator::new(
         ast,
@@ -157,6 +159,12 @@ pub fn build_output(
             
             let pos = ctx.get_output_position(defs).unwrap();
 
+            check_output_position(
+                report,
+                ast_instr.span,
+                pos,
+                instr.encoding.size.unwrap())?;
+
             overlap_checker.check_and_insert(
                 report,
 				ast_instr.span,
@@ -199,6 +207,12 @@ pub fn build_output(
                     defs,
                     true)?
                 .unwrap();
+
+            check_output_position(
+                report,
+                span,
+                pos,
+                elem.encoding.size.unwrap())?;
 
             overlap_checker.check_and_insert(
                 report,
@@ -248,9 +262,38 @@ pub fn build_output(
 }
 
 
+/// The output is a bit vector held in memory: positions beyond
+/// the supported size are reported instead of being allocated.
+fn check_output_position(
+    report: &mut diagn::Report,
+    span: diagn::Span,
+    position: usize,
+    size: usize)
+    -> Result<(), ()>
+{
+    let within_range = position
+        .checked_add(size)
+        .map_or(false, |end| (end as u64) < util::BIGINT_MAX_BITS);
+
+    if !within_range
+    {
+        report.error_span(
+            "output position is out of supported range",
+            span);
+
+        return Err(());
+    }
+
+    Ok(())
+}
+
+
 fn fill_banks(
+    report: &mut diagn::Report,
+    decls: &asm::ItemDecls,
     defs: &asm::ItemDefs,
     output: &mut util::BitVec)
+    -> Result<(), ()>
 {
     for i in 0..defs.bankdefs.defs.len()
     {
@@ -268,6 +311,12 @@ fn fill_banks(
                 continue;
             }
 
+            check_output_position(
+                report,
+                decls.bankdefs.get(bankdef.item_ref).span,
+                offset,
+                size)?;
+
             let highest_position = offset + size - 1;
 
             if output.len() <= highest_position
@@ -276,6 +325,8 @@ fn fill_banks(
             }
         }
     }
+
+    Ok(())
 }
 
 
@@ -319,8 +370,11 @@ fn check_bank_output(
 
     if let Some(bank_size) = bankdef.size
     {
-        // FIXME: Addition can overflow
-        if ctx.bank_data.cur_position + size > bank_size
+        let out_of_range = ctx.bank_data.cur_position
+            .checked_add(size)
+            .map_or(true, |end| end > bank_size);
+
+        if out_of_range
         {
             report.push_parent(
                 format!(
